@@ -582,6 +582,12 @@ func (r *relay) dev2(m refcodec.C11Msg2, body []byte) []byte {
 				m.Mac = om.Mac
 			}
 		}
+	case "replay_proof":
+		if r.old != nil {
+			if om, err := refcodec.C11ParseMsg2(r.old.m2raw); err == nil {
+				m.RB, m.Mac = om.RB, om.Mac
+			}
+		}
 	case "forge":
 		m.Mac = refcodec.C11Mac2(macHash(len(m.Mac)), r.junkKey(), m.A, m.B, m.RA, m.RB)
 	case "echo_wrong", "echo_trunc", "echo_empty":
@@ -854,7 +860,7 @@ func Run(f *Fixture, model Model, sc *Scn, v Variant) (*Obs, *Scn, Concrete, err
 	case "claim_all":
 		r.insTok, r.insID = base, pick(identityAlts, v.Alt)
 		conc.Identity = r.insID
-	case "replay_msg", "replay_mac":
+	case "replay_msg", "replay_mac", "replay_proof":
 		r0 := &relay{sc: &Scn{Mode: "exchange", Kind: "none"}, clientTok: base, minted: r.minted}
 		r.old = f.exchange(r0, false)
 		if r.old.C != "ok" || r.old.S != "ok" {
@@ -987,7 +993,9 @@ func RunVerify(f *Fixture, model Model, sc *Scn, v Variant) (VerifyResult, *Scn,
 			tok = refcodec.C11MintToken(f.K1, refcodec.C11Claims{Kid: "k2", Sub: AliceSub, Iss: Domain, Iat: now - 5, Exp: now + 600, Jti: jti})
 		}
 	case "v_unknownkid":
-		tok = refcodec.C11MintToken(f.KX, refcodec.C11Claims{Kid: pick(unknownKids, v.Alt), Sub: AliceSub, Iss: Domain, Iat: now - 5, Exp: now + 600, Jti: jti})
+		// signed with a key nobody holds, or with a key the server holds under ANOTHER name:
+		// the signature must verify under the NAMED key, and there is none
+		tok = refcodec.C11MintToken(pick([][]byte{f.KX, f.K1, f.K2}, v.Idx), refcodec.C11Claims{Kid: pick(unknownKids, v.Alt), Sub: AliceSub, Iss: Domain, Iat: now - 5, Exp: now + 600, Jti: jti})
 	case "v_srv_otherkey":
 		tok, _ = f.baseToken(0, now, jti)
 		other = true
